@@ -35,6 +35,13 @@ theorem c16_outcome (H : Str → Str) (side : Side) (ex : List Str) (i : Input) 
     | true => exact Or.inr (c16_holds H side ex d hwf)
   | notJson e => cases side <;> cases e <;> rfl
 
+/-- A whole transaction (request body, then response body, one obfuscator, one exclusion list): both
+    exported bodies satisfy the property, each w.r.t. the exclusions of its own side. -/
+theorem c16_txn (H : Str → Str) (ex : List Str) (reqBody respBody : Input) :
+    holdsTxn H ex reqBody respBody (runTxn H ex reqBody respBody) = true := by
+  simp only [holdsTxn, runTxn, Bool.and_eq_true]
+  exact ⟨c16_outcome H .req ex reqBody, c16_outcome H .resp ex respBody⟩
+
 /-- Keys, nesting and array lengths are preserved. -/
 theorem structure_preserved (H : Str → Str) (side : Side) (ex : List Str) (d : Json)
     (hwf : wellFormed d = true) : shape (obfuscateBody H side ex d) = shape d :=
@@ -100,6 +107,15 @@ example : covered .raw [".items".toList] [.key "items".toList, .elem 0, .key "id
 example : covered .req ["$.request.body.user.name".toList] [.key "name".toList] = false ∧
     getAt [.key "name".toList] exDoc = some (.str "top-secret".toList) ∧
     isLeaf (.str "top-secret".toList) = true := ⟨by decide, rfl, by decide⟩
+
+/-- one transaction, the same path in both bodies, excluded on the request side only: the response
+    body's `.user.name` is hashed; letter case matters (`.user.Name` is a different path) -/
+example : ∀ H : Str → Str,
+    runTxn H ["$.request.body.user.name".toList]
+      (.json (.obj [("user".toList, .obj [("name".toList, .str "alice".toList), ("Name".toList, .str "A".toList)])]))
+      (.json (.obj [("user".toList, .obj [("name".toList, .str "bob".toList)])]))
+    = (.doc (.obj [("user".toList, .obj [("name".toList, .str "alice".toList), ("Name".toList, .str (H "A".toList))])]),
+       .doc (.obj [("user".toList, .obj [("name".toList, .str (H "bob".toList))])])) := fun _ => rfl
 
 /-- the exclusion written for the other side is filtered out: nothing is excluded -/
 example : ∀ H : Str → Str,
